@@ -816,6 +816,13 @@ func (s *SecureChannel) handleOpenSecureChannelRequest(reqID uint32, svc ua.Requ
 		debug.Printf("Expected OpenSecureChannel Request, got %T\n", svc)
 	}
 
+	// Only a server channel answers OpenSecureChannel requests. A client channel
+	// has no opening instance to answer with once its own Open has finished, and
+	// a request from the server must not replace the client's channel state.
+	if s.kind != server || s.openingInstance == nil {
+		return errors.Errorf("sechan: unexpected OpenSecureChannelRequest")
+	}
+
 	// Part 6.7.4: https://reference.opcfoundation.org/Core/Part6/v105/docs/6.7.4
 	// todo(fs): check that ClientProtocolVersion matches HELLO.Version
 	// todo(fs): respond with Bad_ProtocolVersionUnsupported if they don't match
